@@ -426,6 +426,75 @@ Proof.
 Qed.
 End C03ForExample.
 
+(* ... and the comment idiom: a block without labels or counter whose count is not positive, around ANY body (any lines,
+   nested blocks included), disappears: the text is assembled to what the lines in front and behind denote *)
+Theorem C03_programs_with_comment_block_partial :
+  forall spell cfg org (its : list Prog.item) es1 es2 lead count forw rofw skip blk cls v d_at content' nm au code start inp toks rkN,
+    let es := es1 ++ es2 in
+    validate cfg = true ->
+    spell_ok spell (flat_map il_labels (instrs its) ++ map fst (equs its)) ->
+    renders_doc2 spell org its es -> shape2_ok es -> Forall (fun xk => (1 <= snd xk)%nat) es ->
+    ranked spell (equs its) rkN ->
+    bodies_known cfg its ->
+    meaning (mconf_of cfg) (mkProg its org None nm au []) = MOk code start ->
+    Forall (fun xk => junk_free (fst xk)) es1 ->
+    t_typ forw = tokText -> tok_is_pseudo forw = true -> lower_is (t_val forw) "for" = true -> Forall plain_tok count ->
+    Forall bline_ok blk -> body_run blk 0 None [] = Some (O, d_at, content') -> Forall (fun vc => is_label (fst vc)) cls ->
+    t_typ rofw = tokText -> tok_is_pseudo rofw = true -> lower_is (t_val rofw) "for" = false -> lower_is (t_val rofw) "rof" = true ->
+    Forall plain_tok skip ->
+    (forall syms, front_symbols (doc_plines lead es1) = Some syms ->
+       expand_and_evaluate (filter noncomment count) (with_constants cfg syms) = Some (EOk v)) -> v <= 0 ->
+    lex_ascii inp = Some toks -> counts_modelled toks None = true ->
+    toks = repeat nl_tok lead ++ body es1 ++ (forw :: count ++ [nlt]) ++ flat_map bl_toks blk ++ lbl_seg cls ++ rofw :: skip ++ (nlt :: body es2 ++ [tEOF]) ->
+    compile_warrior cfg inp = COk code start (dmeta (mkPM [] [] []) es).
+Proof. exact zero_for_program. Qed.
+Print Assumptions C03_programs_with_comment_block_partial.
+
+Module C03CommentExample.
+Import C03ForExample.
+Definition e_count : nexpr := NBin OSub (NName 20) (NLit 2).
+Definition its : list Prog.item := [ IEqu 20 (NLit 2); IInstr l_mov; IInstr l_dat ].
+Definition es1 : list (lelem * nat) := [ (LEqu [LName (s2t "step")] (s2t "equ") (etoks spell (NLit 2)) None, 1%nat) ].
+Definition es2 : list (lelem * nat) :=
+  [ (LInstr (mkTL [LName (s2t "start")] (s2t "mov") None (etoks spell (NName 11)) (Some (Some 64%N, etoks spell (NName 20))) None), 1%nat);
+    (LInstr (mkTL [LName (s2t "bomb")] (s2t "dat") (Some 35%N) (etoks spell (NLit 0)) (Some (Some 35%N, etoks spell (NLit 0))) None), 1%nat) ].
+Definition blk : list bline :=
+  [ mkBL [(s2t "unused", 1%nat)] [T (s2t "dat"); mkT tokNumber [49%N]; mkT tokComma [44%N]; mkT tokNumber [50%N]];
+    mkBL [] [T (s2t "for"); mkT tokNumber [51%N]]; mkBL [] [T (s2t "jmp"); T (s2t "nowhere")]; mkBL [] [T (s2t "rof")] ].
+Definition source : text :=
+  s2t "step equ 2" ++ [10%N] ++ s2t " for step-2" ++ [10%N] ++ s2t "unused: dat 1, 2" ++ [10%N] ++ s2t " for 3" ++ [10%N] ++ s2t " jmp nowhere" ++ [10%N]
+  ++ s2t " rof" ++ [10%N] ++ s2t " rof" ++ [10%N] ++ s2t "start mov bomb, @step" ++ [10%N] ++ s2t "bomb dat #0, #0" ++ [10%N].
+Definition toks : list token :=
+  repeat nl_tok 0 ++ body es1 ++ (T (s2t "for") :: etoks spell e_count ++ [nlt]) ++ flat_map bl_toks blk ++ lbl_seg [] ++ T (s2t "rof") :: [] ++ (nlt :: body es2 ++ [tEOF]).
+Definition code : list instr := [mkI MOV mI 1 DIRECT 2 B_INDIRECT; mkI DAT mF 0 IMMEDIATE 0 IMMEDIATE].
+
+Example conclusion : compile_warrior cfg94 source = COk code 0 (dmeta (mkPM [] [] []) (es1 ++ es2)).
+Proof.
+  eapply (C03_programs_with_comment_block_partial spell cfg94 None its es1 es2 0%nat (etoks spell e_count)
+           (T (s2t "for")) (T (s2t "rof")) [] blk [] 0%Z _ _ None None code 0%Z source toks rkN); try reflexivity.
+  - constructor.
+    + repeat split; reflexivity.
+    + intros id Hid. cbn in Hid. destruct Hid as [<-|[<-|[<-|[]]]]; (split; [reflexivity|]); cbn; intros H;
+        repeat (destruct H as [H|H]; [discriminate H|]); exact H.
+    + intros a b Ha Hb. cbn in Ha, Hb. destruct Ha as [<-|[<-|[<-|[]]]], Hb as [<-|[<-|[<-|[]]]]; try reflexivity; intros H; discriminate H.
+    + cbn. repeat constructor; cbn; intuition discriminate.
+    + intros id. unfold spell, C03EquExample.spell. repeat (destruct (_ =? _)%N); discriminate.
+  - apply R2equ; [reflexivity|reflexivity|repeat constructor; cbn; lia|].
+    apply R2instr; [repeat split; reflexivity|].
+    apply R2instr; [repeat split; try reflexivity; cbn; lia|apply R2nil].
+  - repeat constructor.
+  - repeat constructor.
+  - intros n e Hin x Hx. cbn in Hin. destruct Hin as [Hin|[]]. inversion Hin; subst n e. destruct Hx.
+  - unfold bodies_known. cbn [equs its]. repeat constructor.
+  - repeat constructor.
+  - repeat constructor; cbn; discriminate.
+  - repeat constructor; cbn; discriminate.
+  - constructor.
+  - constructor.
+  - intros syms H. vm_compute in H. inversion H; subst syms. vm_compute. reflexivity.
+Qed.
+End C03CommentExample.
+
 (* missing from C03_full_statement: that the token-level relation `unrolls` holds between the rendering of every abstract
    program with FOR blocks and the rendering of its Render.unroll (C08), ;assert lines (C07), and EQU definitions together
    with an END line.  These, and the composition of all of them, are decided on every run by the
